@@ -202,6 +202,19 @@ check("C20", "fault_enumeration",
       "exhaustive fault / environment enumeration against the real binary with a scripted mock endpoint",
       "DESIGN.md 4 C20, appendix D")
 
+check("C18", "model_checking",
+      "Model = flag -> option table. States = attribute token streams enumerated completely within the stated alphabet "
+      "(every subset of the optional keys x orders x 4 string-literal styles x separators / trailing comma; every permutation "
+      "of small subsets; every value of every key's domain alone and in pairs; surrounding attributes; struct visibilities; "
+      "manifest-relative directories), compiled INSIDE graphql_query_derive through hook H2 so that the crate's real "
+      "option-building functions are exercised; each is compared with the table through the token stream the real generator "
+      "emits on an option-revealing fixture. Conformance: real derive expansions in graphql_client-only crates judged by "
+      "what compiles and what warns.",
+      "Trusted: the table (from the README / property text). In-crate runs use proc_macro2's fallback token streams; the "
+      "conformance cases cover the compiler-driven path.",
+      "explicit-state enumeration of attribute token streams against a flag->option model, with conformance runs of the real macro",
+      "DESIGN.md 4 C18, 5 (hook H2)")
+
 NOT_APPLICABLE = []
 
 
